@@ -134,6 +134,23 @@ def step08 (infoHash ownId : Bytes) (st : M08) (x : TEntry) : Option M08 :=
 def P08 (infoHash ownId : Bytes) (expected : Option Bytes) (tr : Trace) : Bool :=
   checkTrace (step08 infoHash ownId) { validated := false, expected := expected, alive := true } tr
 
+def isHaveWrite : Obs → Bool
+  | .write (.haveP _) => true
+  | _ => false
+
+def isBcHave : TIn → Bool
+  | .bcHave _ _ => true
+  | _ => false
+
+/-- C08 monitor, with one more clause: before a handshake has validated on the connection (incoming or outgoing), a
+    completion broadcast from the manager puts no `Have` on the wire — the peer is told nothing about our pieces
+    before it has shown to be a peer of this torrent. -/
+def step08h (infoHash ownId : Bytes) (st : M08) (x : TEntry) : Option M08 :=
+  if st.alive && !st.validated && isBcHave x.1 && x.2.1.any isHaveWrite then none else step08 infoHash ownId st x
+
+def P08h (infoHash ownId : Bytes) (expected : Option Bytes) (tr : Trace) : Bool :=
+  checkTrace (step08h infoHash ownId) { validated := false, expected := expected, alive := true } tr
+
 /-! ### C09: uploads return exactly the requested stored bytes, or nothing -/
 
 structure M09 where
